@@ -539,7 +539,7 @@ static void runTask(const std::vector<Case>& cases, const Task& t)
   const std::string& op = cs.run[t.irun].first;
   const std::string& nk = cs.run[t.irun].second;
   snprintf(CUR, sizeof CUR, "{\"id\":\"%s\",\"op\":\"%s\"", cs.id.c_str(), op.c_str());
-  struct itimerval it = {{0, 0}, {0, 600000}};
+  struct itimerval it = {{0, 0}, {0, 400000}};
   setitimer(ITIMER_VIRTUAL, &it, nullptr);
   alarm(60);
   Value rec = Value::object();
